@@ -85,6 +85,7 @@ def _build(d):
         n = d.int(1, 30)
         return {'k': 'XNPV', 'r': _rate(d), 'flows': _flows(d, n),
                 'dates': _dates(d, n), 'mode': mode,
+                'dk': d.choice(['serial', 'serial', 'isotext', 'datef']),
                 'orient': d.choice(['cc', 'cc', 'rr', 'rc', 'cr'])}
     n = d.int(1, 12)
     root = d.choice([0.05, 0.1, 0.2, 0.5, 1.0, 0.01, 2.0, 5.0, 10.0]) \
@@ -97,6 +98,7 @@ def _build(d):
                 'orient': d.choice(['c', 'c', 'r'])}
     return {'k': 'XIRR', 'root': root, 'returns': rets,
             'dates': _dates(d, n + 1), 'mode': mode,
+            'dk': d.choice(['serial', 'serial', 'isotext', 'datef']),
             'orient': d.choice(['cc', 'cc', 'rr', 'rc', 'cr']),
             # the optional third argument: an explicit first guess
             'guess': d.choice([None, None, None, 0.05, 0.5, 1, 5, -0.5, 50])}
@@ -195,6 +197,19 @@ def _place(values, orient, slot):
             [list(values)])
 
 
+def _spell_dates(dates, kind):
+    """the same dates as serial numbers, as ISO 8601 text or as =DATE()
+    formulas (cells only)"""
+    import datetime
+    if kind in (None, 'serial'):
+        return list(dates)
+    ds = [datetime.date(1899, 12, 30) + datetime.timedelta(days=t)
+          for t in dates]
+    if kind == 'isotext':
+        return [x.isoformat() for x in ds]
+    return ['=DATE(%d,%d,%d)' % (x.year, x.month, x.day) for x in ds]
+
+
 def _fail(res, bucket, want, o, note):
     if o[0] == 'X':
         bucket = 'exception:%s:%s' % (bucket.split(':')[0], o[1])
@@ -229,7 +244,10 @@ def judge(case):
                           for c, t in zip(flows, dates))
         orient = case.get('orient', 'cc')
         c1, r1, a1 = _place(flows, orient[0], 0)
-        c2, r2, a2 = _place(dates, orient[1], 1)
+        dk = case.get('dk')
+        if dk == 'datef' and case['mode'] == 'call':
+            dk = 'isotext'      # a formula cannot be passed to a direct call
+        c2, r2, a2 = _place(_spell_dates(dates, dk), orient[1], 1)
         cells = dict(c1)
         cells.update(c2)
         note = '=XNPV(%r,%s,%s)' % (r, r1, r2)
@@ -357,7 +375,10 @@ def _irr(case, res):
         flows = [c0] + rets
         orient = case.get('orient', 'cc')
         c1, r1, a1 = _place(flows, orient[0], 0)
-        c2, r2, a2 = _place(dates, orient[1], 1)
+        dk = case.get('dk')
+        if dk == 'datef' and case['mode'] == 'call':
+            dk = 'isotext'      # a formula cannot be passed to a direct call
+        c2, r2, a2 = _place(_spell_dates(dates, dk), orient[1], 1)
         cells = dict(c1)
         cells.update(c2)
         guess = case.get('guess')
